@@ -307,4 +307,115 @@ theorem sortSame_spec (l0 l1 : List Int) (h0 : l0 ≠ []) (h1 : l1 ≠ []) :
   · intro h x; rw [← hm0, ← hm1, h]
   · intro h; exact strictSorted_ext hs0 hs1 (fun x => by rw [hm0, hm1, h])
 
+/-- outcome of a search in a non-decreasing list: a position holding the target, or `not_found`/`REF_EMPTY`
+    and the target is absent -/
+def SearchOK (a : List Int) (t : Int) (r : Status × Int) : Prop :=
+  (∃ p : Nat, r = (Status.ok, (p : Int)) ∧ p < a.length ∧ a.getD p 0 = t) ∨
+  (r = (Status.not_found, EMPTY) ∧ t ∉ a)
+
+theorem searchLoop_spec (a : List Int)
+    (hs : ∀ i j, i < j → j < a.length → a.getD i 0 ≤ a.getD j 0) (t : Int)
+    (fuel lo up mid : Nat) (hup : up < a.length) (hlo : a.getD lo 0 < t) (hupv : t < a.getD up 0)
+    (hmid : mid = (lo + up) / 2 ∨ (lo = 0 ∧ up = a.length - 1 ∧ mid = a.length / 2))
+    (hfuel : up - lo ≤ fuel) (hlu : lo < up) : SearchOK a t (searchLoop a t fuel lo up mid) := by
+  induction fuel generalizing lo up mid with
+  | zero => omega
+  | succ f ih =>
+    simp only [searchLoop, Bool.and_eq_true, decide_eq_true_eq, Nat.shiftRight_eq_div_pow, Nat.pow_one]
+    by_cases hc : lo < mid ∧ mid < up
+    · rw [if_pos hc]
+      by_cases hge : t ≥ a.getD mid 0
+      · rw [if_pos hge]
+        by_cases heq : t = a.getD mid 0
+        · rw [if_pos heq]
+          exact Or.inl ⟨mid, rfl, by omega, heq.symm⟩
+        · rw [if_neg heq]
+          exact ih mid up ((mid + up) / 2) hup (by omega) hupv (Or.inl rfl) (by omega) (by omega)
+      · rw [if_neg hge]
+        exact ih lo mid ((lo + mid) / 2) (by omega) hlo (by omega) (Or.inl rfl) (by omega) (by omega)
+    · rw [if_neg hc]
+      refine Or.inr ⟨rfl, ?_⟩
+      have hup1 : up = lo + 1 := by
+        rcases hmid with h | ⟨h1, h2, h3⟩ <;> omega
+      rw [mem_iff_getD]
+      rintro ⟨k, hk, hx⟩
+      by_cases hkl : k ≤ lo
+      · rcases Nat.lt_or_eq_of_le hkl with h | h
+        · have := hs k lo h (by omega); omega
+        · subst h; omega
+      · have hku : up ≤ k := by omega
+        rcases Nat.lt_or_eq_of_le hku with h | h
+        · have := hs up k h hk; omega
+        · subst h; omega
+
+/-- `ref_sort_search_int` on a non-decreasing list -/
+theorem searchInt_spec (a : List Int) (hsorted : a.Pairwise (· ≤ ·)) (t : Int) :
+    SearchOK a t (searchInt a t) := by
+  have hs := (pairwise_iff_getD a).1 hsorted
+  simp only [searchInt, Bool.or_eq_true, decide_eq_true_eq]
+  by_cases hn : a.length < 1
+  · rw [if_pos hn]
+    have : a = [] := List.length_eq_zero_iff.1 (by omega)
+    subst this
+    exact Or.inr ⟨rfl, by simp⟩
+  rw [if_neg hn]
+  by_cases hout : t < a.getD 0 0 ∨ t > a.getD (a.length - 1) 0
+  · rw [if_pos hout]
+    refine Or.inr ⟨rfl, ?_⟩
+    rw [mem_iff_getD]
+    rintro ⟨k, hk, hx⟩
+    rcases hout with h | h
+    · rcases Nat.eq_zero_or_pos k with h0 | h0
+      · subst h0; omega
+      · have := hs 0 k h0 hk; omega
+    · rcases Nat.lt_or_eq_of_le (by omega : k ≤ a.length - 1) with h0 | h0
+      · have := hs k (a.length - 1) h0 (by omega); omega
+      · subst h0; omega
+  rw [if_neg hout]
+  by_cases h0 : t = a.getD 0 0
+  · rw [if_pos h0]; exact Or.inl ⟨0, rfl, by omega, h0.symm⟩
+  rw [if_neg h0]
+  by_cases h1 : t = a.getD (a.length - 1) 0
+  · rw [if_pos h1]; exact Or.inl ⟨a.length - 1, rfl, by omega, h1.symm⟩
+  rw [if_neg h1]
+  have hn2 : 0 < a.length - 1 := by
+    by_contra hc
+    have : a.length - 1 = 0 := by omega
+    rw [this] at hout h1
+    omega
+  refine searchLoop_spec a hs t a.length 0 (a.length - 1) (a.length >>> 1) (by omega) (by omega) (by omega)
+    (Or.inr ⟨rfl, rfl, by simp [Nat.shiftRight_eq_div_pow]⟩) (by omega) hn2
+
+theorem searchInt_found_iff (a : List Int) (hsorted : a.Pairwise (· ≤ ·)) (t : Int) :
+    (searchInt a t).1 = Status.ok ↔ t ∈ a := by
+  rcases searchInt_spec a hsorted t with ⟨p, hr, hp, hx⟩ | ⟨hr, hx⟩
+  · rw [hr]; simp only [true_iff]; rw [mem_iff_getD]; exact ⟨p, hp, hx⟩
+  · rw [hr]; simp [hx]
+
+/-- soundness without any assumption on the list: whatever the input, `ok` comes with an index that
+    holds the target, every other outcome is `not_found` with `REF_EMPTY` -/
+theorem searchLoop_sound (a : List Int) (t : Int) (fuel lo up mid : Nat) (hup : up < a.length) :
+    (∃ p : Nat, searchLoop a t fuel lo up mid = (Status.ok, (p : Int)) ∧ p < a.length ∧ a.getD p 0 = t) ∨
+      searchLoop a t fuel lo up mid = (Status.not_found, EMPTY) := by
+  induction fuel generalizing lo up mid with
+  | zero => exact Or.inr rfl
+  | succ f ih =>
+    simp only [searchLoop, Bool.and_eq_true, decide_eq_true_eq]
+    split_ifs with hc hge heq
+    · exact Or.inl ⟨mid, rfl, by omega, heq.symm⟩
+    · exact ih _ _ _ hup
+    · exact ih _ _ _ (by omega)
+    · exact Or.inr rfl
+
+theorem searchInt_sound (a : List Int) (t : Int) :
+    (∃ p : Nat, searchInt a t = (Status.ok, (p : Int)) ∧ p < a.length ∧ a.getD p 0 = t) ∨
+      searchInt a t = (Status.not_found, EMPTY) := by
+  simp only [searchInt, Bool.or_eq_true, decide_eq_true_eq]
+  split_ifs with h1 h2 h3 h4
+  · exact Or.inr rfl
+  · exact Or.inr rfl
+  · exact Or.inl ⟨0, rfl, by omega, h3.symm⟩
+  · exact Or.inl ⟨a.length - 1, rfl, by omega, h4.symm⟩
+  · exact searchLoop_sound a t _ _ _ _ (by omega)
+
 end Refine.Model.Sort
